@@ -375,3 +375,34 @@ func TestVerifFindingF16(t *testing.T) {
 		}
 	}
 }
+
+// F17 (C08): Info listed none of the chunks of a file whose summary repeats no channel records.
+func TestVerifFindingF17(t *testing.T) {
+	buf := &bytes.Buffer{}
+	w, err := NewWriter(buf, &WriterOptions{Chunked: true, ChunkSize: 1, SkipRepeatedChannelInfos: true})
+	if err != nil {
+		t.Fatal(err)
+	}
+	_ = w.WriteHeader(&Header{})
+	_ = w.WriteSchema(&Schema{ID: 1, Name: "s"})
+	_ = w.WriteChannel(&Channel{ID: 1, SchemaID: 1, Topic: "a"})
+	for i := 0; i < 5; i++ {
+		if err := w.WriteMessage(&Message{ChannelID: 1, LogTime: uint64(i), Data: []byte("x")}); err != nil {
+			t.Fatal(err)
+		}
+	}
+	if err := w.Close(); err != nil {
+		t.Fatal(err)
+	}
+	r, err := NewReader(bytes.NewReader(buf.Bytes()))
+	if err != nil {
+		t.Fatal(err)
+	}
+	info, err := r.Info()
+	if err != nil {
+		t.Fatal(err)
+	}
+	if uint32(len(info.ChunkIndexes)) != info.Statistics.ChunkCount {
+		t.Fatalf("Info lists %d chunk indexes, the file has %d chunks", len(info.ChunkIndexes), info.Statistics.ChunkCount)
+	}
+}
